@@ -69,6 +69,7 @@ type Val struct {
 	Clo   *Closure
 	Typ   types.Type
 	None  bool
+	NilIf *Term // with Addr: the pointer is nil under this condition (result of an inlined callee that returns nil or one address)
 }
 
 type Closure struct {
@@ -185,6 +186,7 @@ type frame struct {
 	top     bool
 	cellClo map[*ssa.Alloc]*Closure
 	dbg     map[string]ssa.Value
+	dbgAll  map[string][]ssa.Value
 	snap    map[ssa.Value][2]Term
 }
 
